@@ -4,9 +4,11 @@
    itself would (excluded for the zoo by the finite check [invoke_total], re-evaluated every run).
    (2) frames: Link.v — every environment input (garbage frame, read error, unknown function,
    wrong arity, undecodable argument, unknown / duplicate call id) has a defined step whose
-   effect is a report on this link or a discarded response; never the crash state. *)
+   effect is a report on this link or a discarded response; never the crash state.
+   (3) other links: Hub.v — whatever a peer sends on its link (any choice of that component, garbage
+   frames and bad names included) changes nothing of any other link of the registry or its peer. *)
 From Coq Require Import String.
-From Verif Require Import Base Resolve ResolveProofs Link LinkProofs LinkInv16.
+From Verif Require Import Base Resolve ResolveProofs Link LinkProofs LinkInv16 Pair Hub HubProofs.
 
 Theorem peer_names_never_crash :
   forall tys root name argc,
@@ -30,3 +32,20 @@ Proof.
   vm_compute. reflexivity.
 Qed.
 Print Assumptions D6_refuted.
+
+(* whatever happens on link k - every environment choice of that component, incl. undecodable
+   frames, unknown function names, wrong arities, failing reads, and every step of its (possibly
+   malicious) peer - leaves every other link of the registry and its peer exactly as it was *)
+Theorem bad_input_is_confined_to_its_link :
+  forall fns callsAs callsBs hs k a hs' j,
+    hstep fns callsAs callsBs hs k a = Some hs' -> j <> k -> nth_error hs' j = nth_error hs j.
+Proof. exact hstep_frame. Qed.
+Print Assumptions bad_input_is_confined_to_its_link.
+
+(* ... and no sequence of such choices reaches a crash state on any link *)
+Theorem hub_never_crashes :
+  forall fns callsAs callsBs n hs k p,
+    hreachable fns callsAs callsBs n hs -> nth_error hs k = Some p ->
+    Link.crashed (pa p) = false /\ Link.crashed (pb p) = false.
+Proof. exact hub_never_crashes_lemma. Qed.
+Print Assumptions hub_never_crashes.
